@@ -398,7 +398,7 @@ def _same(res, sig):
     return res['cls'] == 'violation' and any(s == sig for s, _ in res['violations'])
 
 
-def minimise(check, case, sig, budget_runs=250, budget_s=60.0, log=None):
+def minimise(check, case, sig, budget_runs=250, budget_s=30.0, log=None):
     t_end = time.monotonic() + budget_s
     runs = [0]
 
@@ -557,7 +557,7 @@ def run_check(prop, tier, base_seed, jobs=None, runs=None, wall=None):
             known_hit[e['id']][1] += tot['sigcount'].get(sig, len(fs))
             continue
         n_unknown += 1
-        if n_unknown > 4:
+        if n_unknown > 3:
             continue
         f = fs[0]
         mres, nruns = minimise(check, f['case'], sig)
